@@ -55,6 +55,13 @@ func c09Scenarios(tier string) []*Scenario {
 	take(c08Scenarios(tier), func(sc *Scenario) bool {
 		return strings.Contains(sc.ID, "-seq-") && (tier == "thorough" || strings.Count(sc.ID, "+") == 0)
 	}, kmax)
+	take(c10Scenarios(tier), func(sc *Scenario) bool {
+		// probe-induced stops / restarts and the daemon (Launching/Launched) life cycle
+		if tier == "thorough" {
+			return strings.Contains(sc.ID, "thr2") || strings.Contains(sc.ID, "daemontrue") || strings.Contains(sc.ID, "selfexit")
+		}
+		return (strings.Contains(sc.ID, "thr1") && strings.Contains(sc.ID, "-none-")) || strings.Contains(sc.ID, "daemontrue") || strings.Contains(sc.ID, "selfexit")
+	}, kmax)
 	take(c02Scenarios(tier), func(sc *Scenario) bool {
 		if tier == "thorough" {
 			return strings.Contains(sc.ID, "-bo1-") || strings.Contains(sc.ID, "-bo0-")
